@@ -75,7 +75,7 @@ def reload_rule(chk, prog):
             fa.add(st, "DATE", "set")
         if t == "self.get_properties" and node.args and ast.unparse(node.args[0]) == "self.wmm_filename" and ("DATE", "set") in st["F"]:
             pass
-        if t == "self.__dict__.update" and node.args and "self.get_properties(self.wmm_filename)" in ast.unparse(node.args[0]) and ("DATE", "set") in st["F"]:
+        if t == "self.get_properties" and node.args and ast.unparse(node.args[0]) == "self.wmm_filename" and ("DATE", "set") in st["F"]:
             fa.add(st, "EPOCH", "fresh")
         if t == "self.load_coefficients" and node.args and ast.unparse(node.args[0]) == "self.wmm_filename" and ("DATE", "set") in st["F"]:
             fa.add(st, "COEF", "fresh")
